@@ -81,3 +81,71 @@ theorem C03_completion_is_signalled_only_for_a_finished_tree (w : World) (e : EI
     · simp [ht, h0] at h1
 
 end Bubus.Thm
+
+namespace Bubus.Thm
+open Bubus
+
+/-- **C16**: when `stop()` returns, the bus's run loop has finished, or never existed, or its cancellation has been
+    requested — and a run loop whose cancellation is requested begins no activation and schedules no handler
+    (`C16_cancelled_run_loop_begins_no_activation`, `C16_cancelled_run_loop_schedules_no_handler`): after `stop()`
+    the bus's own run loop starts no handler. -/
+theorem C16_stop_leaves_the_run_loop_finished_or_cancelled (w w' : World) (x : Nat)
+    (hs : step w (.stopEnd x) = some w') :
+    ∃ b d c, w.waiter x = .stopping b d c ∧
+      ((w'.bus b).rl = .exited ∨ (w'.bus b).rl = .none ∨ (w'.bus b).cancelReq = true) := by
+  obtain ⟨hg, rfl⟩ := step_some hs
+  simp [guard, checks, Checks.ok] at hg
+  cases hw : w.waiter x <;> simp [hw] at hg
+  rename_i b d c
+  refine ⟨b, d, c, rfl, ?_⟩
+  have hrl : ((apply w (.stopEnd x)).bus b).rl = (w.bus b).rl := by
+    simp only [apply, apply0, hw, wake_bus]
+    cases c <;> simp
+  have hcr : ((apply w (.stopEnd x)).bus b).cancelReq = ((w.bus b).rl != .exited && (w.bus b).rl != .none) := by
+    simp only [apply, apply0, hw, wake_bus]
+    cases c <;> simp
+  rw [hrl, hcr]
+  cases h : (w.bus b).rl <;> simp
+
+end Bubus.Thm
+
+namespace Bubus.Thm
+open Bubus
+
+/-- **C01 (delivery, local form)**: when a bus begins processing an event, every handler registered on it whose pattern
+    matches the event's type (its name / class, or the wildcard) and which has no result on that event yet — and, for a
+    forwarding handler, whose target bus is not on the event's path yet — is selected for the activation. -/
+theorem C01_every_matching_handler_without_a_result_is_selected (w : World) (b : BId) (e : EId) (r : Reg)
+    (hr : r ∈ (w.bus b).handlers) (hkey : r.key = (w.ev e).etype ∨ r.key = 0)
+    (hno : (w.ev e).hasRes b r.hid = false)
+    (hfw : ∀ t, r.kind = .forward t → (w.ev e).path.contains t = false) :
+    r.hid ∈ applicable w b e := by
+  unfold applicable
+  simp only [List.mem_eraseDups, List.mem_map, List.mem_filter]
+  refine ⟨r, ⟨?_, ?_⟩, rfl⟩
+  · unfold matching
+    simp only [List.mem_append, List.mem_filter]
+    rcases hkey with h | h
+    · left; exact ⟨hr, by simp [h]⟩
+    · right; exact ⟨hr, by simp [h]⟩
+  · unfold passesLoopFilter
+    simp only [hno, Bool.not_false, Bool.and_true]
+    cases hk : r.kind <;> simp
+    rename_i t
+    simpa using hfw t hk
+
+/-- **C01**: … and beginning the activation creates a (pending) result for each selected handler and puts exactly these
+    handlers on the activation's to-do list (which `C01_activation_ends_only_when_every_selected_handler_finished` requires
+    to be worked off before the activation ends). -/
+theorem C01_begin_lists_exactly_the_selected_handlers (w : World) (p : Proc) (b : BId) (e : EId) :
+    let w1 := peEnter w p b
+    ∃ A, (apply w (.peBegin p b e)).act p = some A ∧ A.todo = applicable w1 b e ∧ A.bus = b ∧ A.ev = e ∧ A.running = [] := by
+  intro w1
+  have hm : ∀ (w : World) (x : EId), (markComplete w x).act = w.act := by
+    intro w x; unfold markComplete; simp only []; repeat' split
+    all_goals simp
+  refine ⟨{ bus := b, ev := e, todo := applicable w1 b e, running := [] }, ?_, rfl, rfl, rfl, rfl⟩
+  simp only [apply, apply0, wake_act, peOpen]
+  split <;> simp [hm, w1]
+
+end Bubus.Thm
